@@ -29,7 +29,7 @@ func drawUpSpec(s *Sim, prop string) upSpec {
 	sp.AckInterval = Pick(t, "ackiv", time.Duration(0), 10*time.Millisecond, time.Second)
 	sp.CloseTimeout = Pick(t, "closeto", time.Duration(0), time.Second, time.Minute)
 	if prop == "C01" {
-		sp.AckTimeout = Pick(t, "ackto", time.Duration(0), 0, time.Hour)
+		sp.AckTimeout = Pick(t, "ackto", time.Duration(0), 0, time.Hour, 20*time.Millisecond, 2*time.Second)
 	}
 	npre := Pick(t, "npre", 0, 0, 1, 3)
 	for i := 0; i < npre; i++ {
@@ -49,6 +49,10 @@ func runUpstreamFamily(s *Sim, prop string) {
 		AliasInAck:     t.Bool("alias-in-ack", 1, 2),
 		FailCodePermil: Pick(t, "failcodes", 0, 0, 100, 500),
 	}
+	// a second generation of streams on the same connection: after the first ones are closed another
+	// upstream is opened, and the broker gives it a stream id alias that a closed one had
+	secondGen := prop == "C01" && t.Bool("second-generation", 1, 4)
+	bc.ReuseAliases = secondGen
 	y := newSys(s, bc)
 	if t.Bool("json", 1, 4) {
 		y.Enc = iscp.EncodingNameJSON
@@ -351,6 +355,42 @@ func runUpstreamFamily(s *Sim, prop string) {
 		op.Meta = closeSeen
 	}
 	y.Pump()
+	if secondGen && !s.AnyBusy() {
+		s.Stat("env.second-generation-upstream")
+		op := s.Start(0, y.openUpOp(drawUpSpec(s, prop)))
+		s.Wait()
+		y.Pump()
+		if op.harvested && op.Err == nil {
+			h := y.Ups[len(y.Ups)-1]
+			h.ReuseScratch, h.HookDelay = reuseScratch, hookDelay
+			for k := 0; k < 3; k++ {
+				w := s.Start(0, y.writeOp(h, 0, dataID(t.Choose("w-id", nIDs)), []int{8, 24}))
+				s.Wait()
+				y.Pump()
+				if !w.harvested {
+					y.PumpUntil(func() bool { return w.harvested }, 100*time.Millisecond, 10*time.Second)
+				}
+			}
+			f := s.Start(0, y.flushOp(h))
+			s.Wait()
+			y.Pump()
+			if !f.harvested {
+				y.PumpUntil(func() bool { return f.harvested }, 100*time.Millisecond, 10*time.Second)
+			}
+			cl := s.Start(0, y.closeUpOp(h))
+			s.Wait()
+			if !y.PumpUntil(func() bool { return cl.harvested }, 100*time.Millisecond, 90*time.Second) {
+				s.Violate(prop+".close-stuck", "second-generation", "Upstream.Close of a stream opened after others had been closed is still blocked 90s after the broker answered everything")
+				return
+			}
+			closeSeen := &closeView{allAcked: y.allAckedAndDelivered(h), after: append([]hookAfterRec(nil), h.After...), before: len(h.Before), elapsed: cl.ReturnT - cl.InvokeT}
+			for _, r := range h.Before {
+				closeSeen.cutSeqs = append(closeSeen.cutSeqs, r.Seq)
+			}
+			cl.Meta = closeSeen
+		}
+		y.Pump()
+	}
 	// connection close
 	cop := s.Start(0, y.closeConnOp())
 	s.Wait()
